@@ -29,6 +29,7 @@ type inst struct {
 	pkg      *packages.Package
 	fset     *token.FileSet
 	file     *ast.File
+	usedCtx  bool
 	usedRT   bool
 	tmp      int
 	unsupp   []string
@@ -429,6 +430,16 @@ func (in *inst) process() {
 			if id, ok := v.Fun.(*ast.Ident); ok && in.isBuiltin(id, "close") {
 				c.Replace(&ast.CallExpr{Fun: in.rt("Close"), Args: []ast.Expr{in.site(v.Pos()), v.Args[0]}})
 			}
+			// context.AfterFunc / WithTimeout / WithDeadline: goroutine and timer owned by the simulator
+			if sel, ok := v.Fun.(*ast.SelectorExpr); ok {
+				if fn, ok := in.pkg.TypesInfo.Uses[sel.Sel].(*types.Func); ok && fn.Pkg() != nil && fn.Pkg().Path() == "context" {
+					switch fn.Name() {
+					case "AfterFunc", "WithTimeout", "WithDeadline":
+						in.usedCtx = true
+						v.Fun = &ast.SelectorExpr{X: ast.NewIdent("sctx"), Sel: ast.NewIdent(fn.Name())}
+					}
+				}
+			}
 		case *ast.AssignStmt:
 			// map insert: m[k] = v  → NoteKey(k) before; done as wrapping block
 			if len(v.Lhs) == 1 && v.Tok == token.ASSIGN {
@@ -459,6 +470,9 @@ func (in *inst) process() {
 	}
 	if in.usedRT {
 		astutil.AddNamedImport(in.fset, f, "simrt", rtPath)
+	}
+	if in.usedCtx {
+		astutil.AddNamedImport(in.fset, f, "sctx", rtPath+"/sctx")
 	}
 }
 
